@@ -79,11 +79,58 @@ func (w *World) initOrbiter(ctx sdk.Context, bz json.RawMessage) (validateOk boo
 	return
 }
 
+// reimportProbes are transfers run on throw-away branches before and after the re-initialisation:
+// "the re-initialised chain behaves identically" is observed directly, not only through the export.
+func reimportProbes() []Input {
+	defFw := Fw{Pid: "INT", At: "INT", Mint: "NONE", Caller: "NONE", Tok: "NONE", Rcp: "NONE", Hook: "NONE", Mfd: "uusdc", Meta: "NONE", To: "U"}
+	x := func(fw Fw, acts []Act) Input {
+		in := Input{T: "recv", Chan: 0, Rcv: "ORB", Dn: "RET", Base: "uusdc", Amt: 1000, AmtC: "OK", Mk: "PAYLOAD", Fw: fw, Acts: acts}
+		in.normalise()
+		return in
+	}
+	pt := func(n int64) Fw { f := defFw; f.Pt = n; return f }
+	cctp := func(d int64) Fw { f := defFw; f.Pid, f.At, f.Dom, f.Mint, f.To = "CCTP", "CCTP", d, "MINT_A", "NONE"; return f }
+	hyp := func(d int64) Fw { f := defFw; f.Pid, f.At, f.Dom, f.Tok, f.Rcp, f.To = "HYP", "HYP", d, "T1", "R_A", "NONE"; return f }
+	fee := []Act{{ID: "FEE", At: "FEE", Fees: []Fee{{K: "bps", V: 100, VC: "OK", To: "F1"}}}}
+	return []Input{x(defFw, nil), x(defFw, fee), x(pt(1), nil), x(pt(2), nil), x(pt(3), nil), x(pt(64), nil), x(pt(65), nil),
+		x(cctp(0), nil), x(cctp(1), nil), x(hyp(1), nil), x(hyp(2), nil)}
+}
+
+// probeOutcomes runs every probe on its own discarded branch of ctx and digests what it did.
+func (r *Runner) probeOutcomes(ctx sdk.Context) []string {
+	out := []string{}
+	for _, in := range reimportProbes() {
+		in := in
+		c, _ := ctx.CacheContext()
+		p, _ := r.packet(&in)
+		res, _ := r.recvOn(c, r.mod, p)
+		post, _ := json.Marshal(r.w.project(c))
+		out = append(out, res.Ack+"|"+string(post))
+	}
+	return out
+}
+
 // reimport = export -> validate -> init on a cleared module store -> export again.
 func (r *Runner) reimport(ctx sdk.Context) map[string]any {
 	w := r.w
 	hg, _ := w.orbiterModule()
 	x := map[string]any{}
+	before := r.probeOutcomes(ctx)
+	defer func() {
+		after := r.probeOutcomes(ctx)
+		same, diff := true, []int{}
+		for i := range before {
+			if before[i] != after[i] {
+				same = false
+				diff = append(diff, i)
+			}
+		}
+		x["sameBeh"] = same
+		if !same {
+			x["behDiff"] = diff
+			x["behBefore"], x["behAfter"] = before[diff[0]], after[diff[0]]
+		}
+	}()
 	var export1 json.RawMessage
 	func() {
 		defer func() {
